@@ -70,7 +70,13 @@ def cases(tier, seed, shard, nshards):
             spec["steps"] = rng.randint(0, 4)  # consumer stops early
         gen_kind = rng.random() < 0.25
         pool = ["async_gen", "sync_gen"] if gen_kind else [f for f in FLAVS if not f.endswith("gen")]
-        yield {"spec": spec, "flav": [rng.choice(pool) for _ in spec["srcs"]] or [pool[0]], "fnfl": rng.choice(FNFL)}
+        flav = [rng.choice(pool) for _ in spec["srcs"]] or [pool[0]]
+        if len(flav) >= 2 and not gen_kind and not spec.get("same") and rng.random() < 0.35:
+            # a sized container (list / tuple) among one-shot iterators: its length must not change how the
+            # iterators next to it are polled
+            for i in rng.sample(range(1, len(flav)), rng.randint(1, len(flav) - 1)):
+                flav[i] = rng.choice(["list", "tuple"])
+        yield {"spec": spec, "flav": flav, "fnfl": rng.choice(FNFL)}
 
 
 def classify(spec, exp, got, d):
@@ -140,6 +146,12 @@ def run_case(case, stats: Counter):
                          outer_flavour=outer)
     exp = strip_close(sync.log)
     got = strip_close(asy.log)
+    plain = {i for i, f in enumerate(flav) if f in ("list", "tuple")}
+    if plain:
+        # a plain list / tuple argument is not instrumented on the asyncstdlib side (it IS the user's list): its pulls
+        # are taken out of the reference log; what remains - the one-shot iterators next to it - is compared as usual
+        exp = [e for e in exp if not (e[0] in ("pull", "end") and e[1] in plain)]
+        got = [e for e in got if not (e[0] in ("pull", "end") and e[1] in plain)]
     if tool == "accumulate" and not spec["srcs"][0] and "initial" not in spec["params"]:
         # documented deviation: TypeError instead of an empty iterator; events up to it must agree
         exp = [e for e in exp if e[0] in ("step", "pull", "end")]
